@@ -1086,7 +1086,7 @@ fn mode_run(args: &[String]) -> i32 {
     let n_sweep = cases.len();
     let n_search: usize = arg_value(args, "--search")
         .and_then(|s| s.parse().ok())
-        .unwrap_or(if tier == "thorough" { 400_000 } else { 6_000 });
+        .unwrap_or(if tier == "thorough" { 250_000 } else { 6_000 });
     let mut rng = Rng::new(derive(seed, &[0x5EA2C4]));
     for _ in 0..n_search {
         cases.push(random_case(&mut rng));
